@@ -1708,12 +1708,21 @@ fn mutate_tokens(r: &mut Rng, s: &SInfo, ts: &mut Vec<Tok>) -> &'static str {
             if !strs.is_empty() {
                 let i = *r.pick(&strs);
                 let t = if tags.is_empty() { "t1".to_string() } else { r.pick(&tags).clone() };
-                ts[i] = Tok::Str(match r.below(6) {
+                ts[i] = Tok::Str(match r.below(14) {
                     0 => format!("\"%{t}\""),
                     1 => "\"$\"".into(),
                     2 => "\"x\"".into(),
                     3 => "\"$1a\"".into(),
                     4 => "\"%nope\"".into(),
+                    // operands that are empty or start with a multi-byte character (byte-index slicing)
+                    5 => "\"\"".into(),
+                    6 => "\"\u{e9}cart\"".into(),
+                    7 => "\"\u{20ac}\"".into(),
+                    8 => "\"\u{1F600}x\"".into(),
+                    9 => "\"%\"".into(),
+                    10 => "\"$\u{e9}\"".into(),
+                    11 => "\"%\u{e9}t\"".into(),
+                    12 => "\" $x\"".into(),
                     _ => "\"$shared\"".into(),
                 });
             }
